@@ -97,6 +97,8 @@ def get(ctx, fam):
         return build_family(ctx, fam, byb, sv_by_bin={b: ALIAS for b in byb})
     if fam == "names":
         return build_family(ctx, fam, name_programs(ctx))
+    if fam == "shadow":
+        return build_family(ctx, fam, shadow_programs(ctx))
     if fam == "generic":
         return build_family(ctx, fam, generic_programs(ctx))
     if fam == "attrs":
@@ -250,6 +252,60 @@ def pair_program(n1, n2, idx):
     h("query", "load", [("key", g1)], resp=g2)
     h("sudo", "force", [("a", T.vec(g1)), ("b", g2)])
     return p
+
+
+# user types named like items of the framework's own vocabulary (cosmwasm_std, sylvia, serde, schemars): wherever a
+# handler mentions the bare name, the user's type is meant -- in the messages, the dispatch and the response table
+# (not candidates: names of items the macros themselves define next to the messages -- Api, Executor, Querier -- and the reserved
+# associated-type name Error; a user type of such a name does not compile on the pinned tree and no property promises it would)
+SHADOW_NAMES = ["Empty", "StdError", "StdResult", "Response", "Binary", "Addr", "Coin", "Uint128", "Reply", "SubMsgResult", "Deps", "DepsMut",
+                "Env", "MessageInfo", "CosmosMsg", "WasmMsg", "SubMsg", "Event", "Storage", "QuerierWrapper", "Value", "Serialize",
+                "Deserialize", "JsonSchema", "Remote", "App", "PhantomData", "Timestamp", "BlockInfo", "BoundQuerier",
+                "ExecCtx", "QueryCtx", "Attribute"]
+
+
+def shadow_program(name, idx):
+    """A contract + interface whose handlers take and return a user type called `name`."""
+    import random
+    rng = random.Random(1000 + idx)
+    from . import types as T
+    from .render import R
+    p = {"name": f"sh_{name.lower()}_{idx:02d}", "custom": {"msg": idx % 2 == 0, "query": idx % 3 == 0}, "error": "MonErr", "types": [], "parts": [],
+         "replies": False, "overrides": [], "shadow": [name]}
+    u = T.Ty(R.SHADOW_MARK + name, lambda r, d: {"v": r.randrange(1000)}, "struct")
+    ti = lambda t: spec.intern_type(p, t)
+    c = {"id": "c", "module": None, "trait": None, "variant": "Contract", "handlers": []}
+    p["parts"].append(c)
+
+    def h(part, kind, nm, args, resp=None):
+        d = {"kind": kind, "name": nm, "safe": True, "args": [{"name": an, "ti": ti(t)} for an, t in args], "ret_err": "own",
+             "hid": f"{part['id']}.{kind}.{nm}", "part": part["id"]}
+        if resp is not None:
+            d["resp_ti"] = ti(resp)
+        part["handlers"].append(d)
+    h(c, "instantiate", "instantiate", [("first", T.option(u)), ("count", T.U64)])
+    h(c, "exec", "store", [("value", u), ("items", T.vec(u))])
+    h(c, "exec", "touch", [("flag", T.BOOL)])
+    h(c, "query", "load", [("key", T.STRING)], resp=u)
+    h(c, "query", "count", [("of", u)], resp=T.U32)
+    h(c, "sudo", "force", [("value", u)])
+    h(c, "migrate", "migrate", [("value", T.tup(u, T.U32))])
+    i0 = {"id": "i0", "module": "shadow_iface", "trait": "ShadowIface", "variant": "ShadowIface", "handlers": [], "custom_mode": ["assoc", "empty", "fixed"][idx % 3],
+          "error": "MonErr"}
+    p["parts"].append(i0)
+    h(i0, "exec", "put", [("item", u), ("n", T.U32)])
+    h(i0, "query", "get", [("item", T.option(u))], resp=u)
+    h(i0, "query", "size", [], resp=T.U64)
+    h(i0, "sudo", "reset", [("items", T.vec(u))])
+    spec.gen_reply_table(rng, p, n_names=2)
+    return p
+
+
+def shadow_programs(ctx):
+    out = {}
+    for k, nm in enumerate(SHADOW_NAMES):
+        out.setdefault(f"sh{k % 8:02d}", []).append(shadow_program(nm, k))
+    return out
 
 
 def name_programs(ctx):
